@@ -100,6 +100,17 @@ def set_decimal_config() -> None:
     if scale == DISABLE_VALUE:
         scale = MAX_DECIMAL_SCALE
 
+    # DECIMAL(width, scale) needs width >= scale: report the width as out of range for this scale
+    if width < scale:
+        raise RunTimeError(
+            code="0-4-1-1",
+            env_var=DECIMAL_WIDTH_ENV_VAR,
+            value=width,
+            min_value=scale,
+            max_value=MAX_DECIMAL_WIDTH,
+            disable_value=DISABLE_VALUE,
+        )
+
     DECIMAL_WIDTH = width
     DECIMAL_SCALE = scale
 
